@@ -74,8 +74,9 @@ func numLex(k, s int64, rng *rand.Rand) *jnode {
 }
 
 type jgen struct {
-	rng *rand.Rand
-	s   int64
+	rng    *rand.Rand
+	s      int64
+	exotic bool // numbers outside the model's domain (impl-only stream)
 }
 
 func (g *jgen) coord(lim int64) int64 {
@@ -91,8 +92,24 @@ func (g *jgen) coord(lim int64) int64 {
 	return g.rng.Int63n(2*lim*one+1) - lim*one
 }
 
+var exoticNums = []string{"-0", "-0.0", "-0e0", "0.1", "-0.3", "1e-7", "123456789.123456789", "1.7976931348623157e308", "5e-324",
+	"0.30000000000000004", "100.00000000000001", "-179.99999999999997", "1E2", "2.5e+1", "89.99999999", "-0.000"}
+
+func (g *jgen) exoticNum() *jnode {
+	raw := exoticNums[g.rng.Intn(len(exoticNums))]
+	f, _ := strconv.ParseFloat(raw, 64)
+	return &jnode{kind: '0', raw: raw, num: f}
+}
+
 func (g *jgen) position(dims int, x, y int64) *jnode {
 	p := jarr(numLex(x, g.s, g.rng), numLex(y, g.s, g.rng))
+	if g.exotic {
+		for i := range p.arr {
+			if g.rng.Intn(2) == 0 {
+				p.arr[i] = g.exoticNum()
+			}
+		}
+	}
 	for i := 2; i < dims; i++ {
 		p.arr = append(p.arr, numLex(g.rng.Int63n(2000)-1000, g.s, g.rng))
 	}
@@ -163,9 +180,18 @@ func (g *jgen) polyCoords(mixed bool) *jnode {
 	}
 	d := g.dims()
 	a := jarr()
+	bad := -1
+	if g.rng.Intn(6) == 0 {
+		bad = g.rng.Intn(nr) // one ring (the exterior or a hole) gets an out-of-range vertex
+	}
 	for r := 0; r < nr; r++ {
 		ring := jarr()
-		for _, p := range g.ringPts() {
+		pts := g.ringPts()
+		if r == bad {
+			one := int64(1) << uint(g.s)
+			pts[1] = ipt{pts[1].x, (91 + g.rng.Int63n(5)) * one}
+		}
+		for _, p := range pts {
 			di := d
 			if mixed && g.rng.Intn(3) == 0 {
 				di = 2 + g.rng.Intn(3)
@@ -223,6 +249,14 @@ func (g *jgen) foreign(o *jnode, feature bool) {
 			k := escapeKey([]string{"id", "properties", "title", "bbox"}[g.rng.Intn(4)], g.rng)
 			o.keys = append(o.keys, k)
 			o.vals = append(o.vals, g.anyValue(1))
+		case 4:
+			if g.rng.Intn(3) == 0 { // keys with escaped control characters / DEL
+				k := [][2]string{{"a\\u0001b", "a\x01b"}, {"\\u0000", "\x00"}, {"k\\u007f", "k\x7f"}, {"t\\tb", "t\tb"}, {"\\u000b", "\x0b"}}[g.rng.Intn(5)]
+				o.keys = append(o.keys, &jnode{kind: 's', raw: k[0], dec: k[1]})
+				o.vals = append(o.vals, g.anyValue(1))
+			} else {
+				o.set("crs", g.anyValue(2))
+			}
 		default:
 			o.set([]string{"name", "crs", "x", "feature", "Type"}[g.rng.Intn(5)], g.anyValue(2))
 		}
@@ -310,8 +344,41 @@ func (g *jgen) circle() *jnode {
 	return o
 }
 
+// a thin zig-zag band polygon / line with np positions: every segment straddles the mid-line
+func (g *jgen) zigzag(np int, poly bool) *jnode {
+	saw := func(i int) int64 {
+		if i%2 == 0 {
+			return 2
+		}
+		return -2
+	}
+	a := jarr()
+	if poly {
+		half := (np - 1) / 2
+		var pts []ipt
+		for i := 0; i <= half; i++ {
+			pts = append(pts, ipt{int64(i), saw(i)})
+		}
+		for i := half - 1; i >= 1 && len(pts) < np-1; i-- {
+			pts = append(pts, ipt{int64(i), saw(i) + 1})
+		}
+		pts = append(pts, pts[0])
+		for _, p := range pts {
+			a.arr = append(a.arr, g.position(2, p.x, p.y))
+		}
+		return jobj().set("type", jstr("Polygon")).set("coordinates", jarr(a))
+	}
+	for i := 0; i < np; i++ {
+		a.arr = append(a.arr, g.position(2, int64(i), saw(i)))
+	}
+	return jobj().set("type", jstr("LineString")).set("coordinates", a)
+}
+
 func (g *jgen) document(mixed bool) *jnode {
 	var o *jnode
+	if g.rng.Intn(150) == 0 {
+		return g.zigzag([]int{256, 257, 258, 65}[g.rng.Intn(4)], g.rng.Intn(2) == 0)
+	}
 	switch r := g.rng.Intn(10); {
 	case r < 5:
 		o = g.geometry(2, mixed)
@@ -492,10 +559,28 @@ func streamJSON(w *W, rng *rand.Rand, tier string, which string) {
 		n = 40000
 	}
 	skipped := 0
-	tag := map[string]int{"C07": 70, "C06": 73, "C08": 74}[which]
+	var fixed []*jnode
+	{ // deterministic members of every run: long zig-zags (one quadtree node holding segments 0..255),
+		// and a MultiPolygon whose hole, not its exterior, is out of range
+		g := &jgen{rng: rng, s: 1}
+		for _, np := range []int{257, 256, 258} {
+			fixed = append(fixed, g.zigzag(np, false), g.zigzag(np, true))
+		}
+		for _, lat := range []int64{85, 95} {
+			ext := jarr(g.position(2, 0, 0), g.position(2, 100, 0), g.position(2, 100, 80), g.position(2, 0, 80), g.position(2, 0, 0))
+			hole := jarr(g.position(2, 10, 10), g.position(2, 20, 10), g.position(2, 20, lat), g.position(2, 10, 10))
+			fixed = append(fixed, jobj().set("type", jstr("MultiPolygon")).set("coordinates", jarr(jarr(ext, hole))))
+			fixed = append(fixed, jobj().set("type", jstr("Polygon")).set("coordinates", jarr(ext, hole)))
+		}
+	}
+	tag := map[string]int{"C07": 70, "C06": 73, "C08": 74, "C17p": 76}[which]
 	for it := 0; it < n; it++ {
 		g := &jgen{rng: rng, s: int64(rng.Intn(4))}
 		doc := g.document(rng.Intn(5) == 0)
+		if it < len(fixed) {
+			g.s = 1
+			doc = fixed[it]
+		}
 		docs := []*jnode{doc}
 		labels := []string{"grammar"}
 		for m := rng.Intn(3); m > 0; m-- {
@@ -540,6 +625,9 @@ func streamJSON(w *W, rng *rand.Rand, tier string, which string) {
 		}
 	}
 	w.hist["outside-model-domain-skipped"] = skipped
+	if which == "C06" || which == "C08" {
+		streamExotic(w, rng, n/3)
+	}
 	// texts that are not one JSON object
 	g := &jgen{rng: rng, s: 0}
 	for it := 0; it < n/4; it++ {
@@ -553,7 +641,12 @@ func streamJSON(w *W, rng *rand.Rand, tier string, which string) {
 		case 2:
 			bad = []string{"", " ", "\n\t", "null", "[]", "\"Point\"", "12", "[{\"type\":\"Point\",\"coordinates\":[1,2]}]", "\x00{}", "\x01{}", "x{}"}[rng.Intn(11)]
 		case 3:
-			bad = strings.Replace(text, ":", " ", 1)
+			if rng.Intn(2) == 0 { // whitespace-like bytes that are not JSON whitespace
+				j := []string{"\f", "\v", "\u00a0", "\u0085", "\u2028", "\u3000", "\ufeff"}[rng.Intn(7)]
+				bad = []string{j + text, text + j, j + text + j}[rng.Intn(3)]
+			} else {
+				bad = strings.Replace(text, ":", " ", 1)
+			}
 		case 4:
 			bad = strings.Replace(text, "\"", "'", 2)
 		case 5:
@@ -587,8 +680,30 @@ func streamJSON(w *W, rng *rand.Rand, tier string, which string) {
 	}
 }
 
+// documents whose numbers lie outside the model's domain: implementation-only flags (tag 75)
+func streamExotic(w *W, rng *rand.Rand, n int) {
+	for it := 0; it < n; it++ {
+		g := &jgen{rng: rng, s: 0, exotic: true}
+		doc := g.document(false)
+		text := renderText(doc, int64(rng.Intn(2))*(1+rng.Int63n(1<<30)))
+		if tokenize(text) == nil {
+			continue
+		}
+		args := []int64{int64(rng.Intn(16)) | int64(rng.Intn(16))<<4}
+		for i := 0; i < len(text); i++ {
+			args = append(args, int64(text[i]))
+		}
+		out := w.Do(75, args, true)
+		if len(out) == 1 && out[0] == 1 {
+			w.count("exotic:ok-or-rejected")
+		} else {
+			w.count("exotic:FLAG-FAILED")
+		}
+	}
+}
+
 func init() {
-	for _, p := range []string{"C06", "C07", "C08"} {
+	for _, p := range []string{"C06", "C07", "C08", "C17p"} {
 		p := p
 		streams[p] = func(w *W, rng *rand.Rand, tier string) { streamJSON(w, rng, tier, p) }
 	}
